@@ -15,7 +15,8 @@ var opKinds = []string{
 	"addRun", "addRun", "pushRun", "pushRun", "popRun", "popRun", "popLastRun", "popLastRun",
 }
 
-func genOp(t *rapid.T) Op {
+// genOp draws one operation.  longMax bounds the argument of the long runs.
+func genOp(t *rapid.T, longMax int) Op {
 	k := rapid.SampledFrom(opKinds).Draw(t, "kind")
 	op := Op{K: k}
 	switch k {
@@ -25,7 +26,7 @@ func genOp(t *rapid.T) Op {
 		op.A = rapid.IntRange(0, maxRun-1).Draw(t, "run")
 	}
 	if rapid.IntRange(0, 39).Draw(t, "longRun") == 0 {
-		op = Op{K: rapid.SampledFrom([]string{"addRunL", "addRunL", "pushRunL", "pushRunL", "popRunL", "popLastRunL"}).Draw(t, "longKind"), A: rapid.IntRange(0, 499).Draw(t, "longLen")}
+		op = Op{K: rapid.SampledFrom([]string{"addRunL", "addRunL", "pushRunL", "pushRunL", "popRunL", "popLastRunL"}).Draw(t, "longKind"), A: rapid.IntRange(0, longMax).Draw(t, "longLen")}
 	}
 	return op
 }
@@ -35,7 +36,21 @@ func genCase(t *rapid.T) Case {
 	if c.Ctor == "size" {
 		c.N = rapid.OneOf(rapid.IntRange(0, 17), rapid.IntRange(0, 17), rapid.SampledFrom([]int{31, 32, 33, 63, 64, 65, 100, 127, 128, 129, 255, 256, 257, 511, 512, 513})).Draw(t, "n")
 	}
-	ops := rapid.SliceOfN(rapid.Custom(genOp), 0, 76).Draw(t, "ops")
+	// About half of the cases keep the original Queue[int]; the rest is spread
+	// over the other element kinds.
+	if rapid.Bool().Draw(t, "otherElem") {
+		c.Elem = rapid.SampledFrom(Kinds).Draw(t, "elem")
+	}
+	// The comparison after every step costs time in proportion to the length
+	// of the queue, and a multiple of it for the elements that are not plain
+	// integers: three in four of their cases keep the long runs to 50..149
+	// elements (several growth steps all the same), the others go up to 549
+	// like the cases of Queue[int].
+	longMax := 499
+	if c.Elem != "" && rapid.IntRange(0, 3).Draw(t, "shortRuns") > 0 {
+		longMax = 99
+	}
+	ops := rapid.SliceOfN(rapid.Custom(func(t *rapid.T) Op { return genOp(t, longMax) }), 0, 76).Draw(t, "ops")
 	// Construction instead of rejection: most cases start with a prefix that
 	// (by the documented algorithm) fills the buffer exactly while the head is
 	// in the middle, followed by the Add or Push that has to rotate and grow.
@@ -59,7 +74,8 @@ func genCase(t *rapid.T) Case {
 				run("add", c.N+1)
 				pre = append(pre, Op{K: "clear"})
 			}
-			capacity = rapid.SampledFrom([]int{1, 2, 4, 8, 16}).Draw(t, "cap")
+			// (1, 2, 4, 8, 16 for most kinds; small elements start at 4 or 8)
+			capacity = rapid.SampledFrom(FirstCaps(c.Elem, 5)).Draw(t, "cap")
 			run("add", capacity) // full, head == 0
 			j := rapid.IntRange(1, capacity).Draw(t, "popped")
 			if rapid.Bool().Draw(t, "fromBack") {
@@ -100,9 +116,21 @@ func TestC07Hist(t *testing.T) {
 
 var exhKinds = [4]string{"add", "push", "pop", "poplast"}
 
+// elemClass and rotateClass map an element kind to its class labels.
+var elemClass, rotateClass = func() (e, r map[string]string) {
+	e, r = map[string]string{}, map[string]string{}
+	for _, k := range append([]string{""}, Kinds...) {
+		e[k] = "elem=" + elemLabel(k)
+		r[k] = "rotate_path(shadow)_with_elem=" + elemLabel(k)
+	}
+	return e, r
+}()
+
 // TestC07Exh enumerates, in size order, every sequence over {Add, Push, Pop,
 // PopLast} up to a length bound for each NewSize(n), n in 0..4, with the full
-// comparison after every operation.
+// comparison after every operation.  Up to the bound every case runs with the
+// original Queue[int]; up to the bound less one every case runs a second time
+// with one of the other element kinds, cycling through them by case index.
 func TestC07Exh(t *testing.T) {
 	h := vk.Start(t, "C07", "exh")
 	maxLen := h.Pick(9, 11)
@@ -126,6 +154,10 @@ func TestC07Exh(t *testing.T) {
 	}
 	mk := func(l, i int) Case {
 		c := Case{Ctor: "size", N: i % sizes, Ops: make([]Op, l)}
+		if space := sizes << (2 * l); i >= space { // second pass: another element kind
+			i -= space // (a multiple of sizes: N stays)
+			c.Elem = Kinds[i%len(Kinds)]
+		}
 		code := i / sizes
 		for p := 0; p < l; p++ {
 			c.Ops[p] = Op{K: exhKinds[code&3]}
@@ -135,11 +167,15 @@ func TestC07Exh(t *testing.T) {
 	}
 	for l := 0; l <= maxLen && !h.Failed(); l++ {
 		total := sizes << (2 * l)
+		if l < maxLen {
+			total *= 2
+		}
+		lenLabel := fmt.Sprintf("len=%d", l)
 		vk.Parallel(h, total, func(w, i int) {
 			st := worker(w)
 			c := mk(l, i)
 			st.slot.Enter(c)
-			var r *qrun
+			var r *qstats
 			msg := vk.Guard(func() string { var m string; r, m = runQueue(c); return m })
 			st.slot.Leave()
 			if msg != "" {
@@ -168,7 +204,11 @@ func TestC07Exh(t *testing.T) {
 			if r.headWrap > 0 {
 				st.tl.Classes["Pop_wrapped_head_forwards(shadow)"]++
 			}
-			st.tl.Classes[fmt.Sprintf("len=%d", l)]++
+			st.tl.Classes[lenLabel]++
+			st.tl.Classes[elemClass[c.Elem]]++
+			if r.nonTrivial() {
+				st.tl.Classes[rotateClass[c.Elem]]++
+			}
 		})
 	}
 	for _, st := range ws {
@@ -182,6 +222,7 @@ func TestC07Exh(t *testing.T) {
 	h.Sample(Case{Ctor: "size", N: 2, Ops: []Op{{K: "add"}, {K: "add"}, {K: "pop"}, {K: "add"}, {K: "add"}}}, true)
 	h.Sample(Case{Ctor: "size", N: 3, Ops: []Op{{K: "push"}, {K: "add"}, {K: "add"}, {K: "push"}}}, true)
 	h.Sample(mk(4, 77), false)
+	h.Sample(mk(5, sizes<<10+4321), false)
 	h.Sample(mk(maxLen, 123457), false)
 	h.Exhaustive()
 }
